@@ -26,7 +26,8 @@ except ImportError:
 def _get_color_from_string(a_string: str, colors: bool):
     if colors:
         hash_str = f"{crc32(a_string.encode('utf-8'))}"
-        return f"#{hash_str[2:8]}"
+        # always six digits: crc32 of a short text can be a small number
+        return f"#{hash_str[2:8]:0>6}"
     return "#F0F0F0"
 
 
